@@ -519,26 +519,50 @@ def ATok.render (a : ATok) : Str :=
   (match a.map with | some k => 58 :: natStr k | none => []) ++
   (if a.bracket then [93] else [])
 
-/-- `MoleculeSmiles._format_atom(n, adjacency, **kwargs)` -/
-def formatAtom (m : Mol) (opts : Opts) (sc : SCtx) (n : Nat) : Except Err ATok := do
-  let atom ← match m.atom? n with | some a => pure a | none => .error .keyError
-  let sym ← symbolOf atom.z
-  let mark ← stereoMark m opts sc n atom
-  let iso : Option Nat := match atom.isotope with | some i => if i != 0 then some i else none | none => none
-  let charge ← if atom.charge != 0 && opts.charges then
-      (match chargeStr.lookup atom.charge with | some s => pure s | none => .error .keyError) else pure []
-  let mp : Option Nat := if opts.mapping then some n else none
-  let anySmi := iso.isSome || mark.isSome || !charge.isEmpty || mp.isSome
+/-- the charge slot: `charge_str[atom.charge]` when the atom is charged and charges are shown -/
+def chargeText (opts : Opts) (atom : Atom) : Except Err Str :=
+  if atom.charge != 0 && opts.charges then
+    match chargeStr.lookup atom.charge with
+    | some s => .ok s
+    | none => .error .keyError
+  else .ok []
+
+/-- brackets? and the hydrogen count written: the `if any(smi) or … elif … elif … elif …` cascade of `_format_atom` -/
+def bracketH (m : Mol) (opts : Opts) (n : Nat) (atom : Atom) (sym : Str) (anySmi : Bool) : Bool × Nat :=
   let h : Nat := atom.implH.getD 0    -- truthiness of `implicit_hydrogens`: None and 0 are both falsy
   let hyb := hybridization m n
-  let (br, hc) :=
-    if anySmi || !organicSet.contains sym || atom.radical || opts.hydrogens then (true, h)
-    else if hyb == 4 && h != 0 && (atom.z == zB || atom.z == zN || atom.z == zP) then (true, h)
-    else if h == 0 && (atom.z == zB || atom.z == zC || atom.z == zP || atom.z == zS) && noOrdinaryNeighbour m n then (true, 0)
-    else if h != 0 && atom.z == zP && hyb != 1 then (true, h)
-    else (false, 0)
-  pure { bracket := br, isotope := iso, symbol := if opts.aromatic && hyb == 4 then lower sym else sym,
-         stereo := mark, hcount := hc, charge := charge, map := mp }
+  if anySmi || !organicSet.contains sym || atom.radical || opts.hydrogens then (true, h)
+  else if hyb == 4 && h != 0 && (atom.z == zB || atom.z == zN || atom.z == zP) then (true, h)
+  else if h == 0 && (atom.z == zB || atom.z == zC || atom.z == zP || atom.z == zS) && noOrdinaryNeighbour m n then (true, 0)
+  else if h != 0 && atom.z == zP && hyb != 1 then (true, h)
+  else (false, 0)
+
+def isoSlot (atom : Atom) : Option Nat := match atom.isotope with | some i => if i != 0 then some i else none | none => none
+def mapSlot (opts : Opts) (n : Nat) : Option Nat := if opts.mapping then some n else none
+
+/-- the decision table of `_format_atom` once the slots are known -/
+def mkATok (m : Mol) (opts : Opts) (n : Nat) (atom : Atom) (sym : Str) (mark : Option Bool) (charge : Str) : ATok :=
+  let iso := isoSlot atom
+  let mp := mapSlot opts n
+  let anySmi := iso.isSome || mark.isSome || !charge.isEmpty || mp.isSome
+  let brhc := bracketH m opts n atom sym anySmi
+  { bracket := brhc.1, isotope := iso, symbol := if opts.aromatic && hybridization m n == 4 then lower sym else sym,
+    stereo := mark, hcount := brhc.2, charge := charge, map := mp }
+
+/-- `MoleculeSmiles._format_atom(n, adjacency, **kwargs)` -/
+def formatAtom (m : Mol) (opts : Opts) (sc : SCtx) (n : Nat) : Except Err ATok :=
+  match m.atom? n with
+  | none => .error .keyError
+  | some atom =>
+    match symbolOf atom.z with
+    | .error e => .error e
+    | .ok sym =>
+      match stereoMark m opts sc n atom with
+      | .error e => .error e
+      | .ok mark =>
+        match chargeText opts atom with
+        | .error e => .error e
+        | .ok charge => .ok (mkATok m opts n atom sym mark charge)
 
 /-- `MoleculeSmiles._format_bond(n, m, adjacency, **kwargs)` -/
 def formatBond (m : Mol) (opts : Opts) (sc : SCtx) (a b : Nat) : Except Err Str :=
